@@ -87,6 +87,12 @@ GETF = {
 SIBLINGS = [['ionisation', 'recombination', 'linePower', 'continuumPower', 'cxPower'],
             ['pecExcitation', 'pecRecombination', 'wavelength'],
             ['beamStopping'], ['beamEmission', 'beamCx'], ['thermalCx', 'beamPopulation'], ['pecThermalCx']]
+# directory each family's files live in, as documented in the update_* docstrings (used only to name a misrouting)
+DOC_DIR = {'ionisation': 'ionisation/', 'recombination': 'recombination/', 'thermalCx': 'thermal_cx/',
+           'linePower': 'radiated_power/line/', 'continuumPower': 'radiated_power/continuum/', 'cxPower': 'radiated_power/cx/',
+           'pecExcitation': 'pec/excitation/', 'pecRecombination': 'pec/recombination/', 'pecThermalCx': 'pec/thermal_cx/',
+           'wavelength': 'wavelength/', 'beamCx': 'beam/cx/', 'beamStopping': 'beam/stopping/',
+           'beamPopulation': 'beam/population/', 'beamEmission': 'beam/emission/'}
 PEC_CLASS = {'pecExcitation': 'excitation', 'pecRecombination': 'recombination'}
 INSTALLS = {v: k for k, v in repo_paths.INSTALL.items()}     # lean name -> python name
 
@@ -269,18 +275,18 @@ class World:
         shutil.rmtree(os.path.join(self.home, '.cherab'), ignore_errors=True)
 
     def listing(self):
-        """all files, as the model names them: '<root name>/rel' and '~/.cherab/...'; plus raw bytes for diffing"""
+        """all files, as the model names them: '<root name>/rel' and '~/.cherab/...'; with (bytes, mtime) for diffing"""
         out = {}
         for name, d in self.dirs.items():
             for r, _, fs in os.walk(d):
                 for f in fs:
                     p = os.path.join(r, f)
-                    out[name + '/' + os.path.relpath(p, d)] = open(p, 'rb').read()
+                    out[name + '/' + os.path.relpath(p, d)] = (open(p, 'rb').read(), os.stat(p).st_mtime_ns)
         ch = os.path.join(self.home, '.cherab')
         for r, _, fs in os.walk(ch):
             for f in fs:
                 p = os.path.join(r, f)
-                out['~/' + os.path.relpath(p, self.home)] = open(p, 'rb').read()
+                out['~/' + os.path.relpath(p, self.home)] = (open(p, 'rb').read(), os.stat(p).st_mtime_ns)
         return out
 
 
@@ -840,10 +846,11 @@ class History:
         self.lines.append('ls')
         self.obs.append(('ls', sorted(after), pyfn))
         changed = sorted(p for p in set(before) | set(after) if before.get(p) != after.get(p))
+        self.last_changed = changed
         # K: content of every changed file (model `cat`)
         for p in changed:
             self.lines.append('cat ' + hexs(p))
-            self.obs.append(('cat', file_canon(p, after.get(p)), pyfn))
+            self.obs.append(('cat', file_canon(p, after[p][0] if p in after else None), pyfn))
         # S1: every file created/modified lies under the repository path that was passed
         allowed = (root + '/') if root is not None else '~/.cherab/openadas/repository/'
         stray = [p for p in changed if not p.startswith(allowed)]
@@ -936,16 +943,12 @@ class History:
         sym = 'wrong-read'
         if own and status == 'ok':
             sym = 'written-key-not-readable' if 'RuntimeError' in why else 'written-key-wrong-value'
-            # where did it go? ask the getters of the other families that accept the same arguments
-            want = self.oracle.get(k)
-            for other, (g, _, uf, short) in GETF.items():
-                if other == gfam or len(UPD[uf]['sig'] + UPD[uf]['inner']) - (1 if other in PEC_CLASS else 0) != len(gp):
-                    continue
-                st, res = real_get(repository, other, gp, world.path(kroot))
-                # the destination holds the written value *and* that is not what the oracle expects there
-                if st == 'ok' and want is not None and res.get('') == want \
-                        and self.judge(self.key_of(kroot, other, gp), other, st, res) is not None:
-                    sym = 'routes-to-%s-file' % short
+            # where did it go?  The file the call touched lies in the directory documented for another family
+            for p in self.last_changed:
+                rel = p.split('/', 1)[1] if not p.startswith('~/') else p[len('~/.cherab/openadas/repository/'):]
+                dest = [g for g, d in DOC_DIR.items() if rel.startswith(d)]
+                if dest and gfam not in dest:
+                    sym = 'routes-to-%s-file' % GETF[dest[0]][3]
                     break
         elif not own and status == 'ok':
             sym = 'other-key-changed' if self.allowed(k) != [MISSING] else 'unwritten-key-readable'
